@@ -210,10 +210,107 @@ class Linker:
 
 
 def linker(repo):
+    global _HELPERS
     lk = getattr(repo, '_tr_linker', None)
     if lk is None:
         lk = repo._tr_linker = Linker(repo)
+    hp = getattr(repo, '_tr_helpers', None)
+    if hp is None:
+        hp = repo._tr_helpers = _template_helpers(repo)
+    _HELPERS = hp
     return lk
+
+
+# module-level functions of the backends that only build a piece of text (sized_decimal( nbits, value ) ...): the template
+# normaliser looks through a call of one of them, so that a rule judges the emitted text and not the name of a helper
+_HELPERS = {}
+HELPER_MODULES = ('pymtl3/passes/backends/verilog/util/utility.py', 'pymtl3/passes/backends/yosys/util/utility.py')
+
+
+def _is_template_expr(e):
+    e = _strip_str(e) if isinstance(e, ast.JoinedStr) else e
+    if isinstance(e, ast.JoinedStr):
+        return True
+    if isinstance(e, ast.Constant):
+        return isinstance(e.value, str)
+    if isinstance(e, ast.Call) and isinstance(e.func, ast.Attribute) and e.func.attr == 'format':
+        return _is_template_expr(e.func.value)
+    if isinstance(e, ast.BinOp) and isinstance(e.op, (ast.Add, ast.Mod)):
+        return _is_template_expr(e.left) or (isinstance(e.op, ast.Add) and _is_template_expr(e.right))
+    if isinstance(e, ast.IfExp):
+        return _is_template_expr(e.body) and _is_template_expr(e.orelse)
+    return False
+
+
+def _template_helpers(repo):
+    out = {}
+    for rel in HELPER_MODULES:
+        try:
+            m = repo.mod(rel)
+        except AnalysisError:
+            continue
+        for name, f in m.functions.items():
+            if f.args.vararg or f.args.kwarg or f.args.kwonlyargs or not f.args.args:
+                continue
+            if any(isinstance(x, (ast.For, ast.While, ast.Try, ast.With, ast.FunctionDef, ast.Lambda, ast.Yield, ast.YieldFrom,
+                                  ast.Global, ast.Nonlocal)) for x in ast.walk(f) if x is not f):
+                continue
+            try:
+                ex, outs = sym_run(f, rename=False)
+            except AnalysisError:
+                continue
+            rets = [o for o in outs if o.kind == 'return']
+            if not rets or any(o.kind == 'fall' for o in outs) or any(o.value is None or not _is_template_expr(o.value) for o in rets):
+                continue
+            if name in out:
+                out[name] = None        # two different helpers of one name: not resolved by name alone
+            else:
+                out[name] = (f, outs)
+    return {k: v for k, v in out.items() if v is not None}
+
+
+def _bind_call(f, call):
+    """parameter name -> argument expression of a call of the plain function f, or None"""
+    params = [a.arg for a in f.args.args]
+    if any(isinstance(a, ast.Starred) for a in call.args) or any(k.arg is None for k in call.keywords) or len(call.args) > len(params):
+        return None
+    b = dict(zip(params, call.args))
+    for k in call.keywords:
+        if k.arg not in params or k.arg in b:
+            return None
+        b[k.arg] = k.value
+    defaults = dict(zip(params[len(params) - len(f.args.defaults):], f.args.defaults))
+    for p_ in params:
+        if p_ not in b:
+            if p_ not in defaults:
+                return None
+            b[p_] = defaults[p_]
+    return b
+
+
+def _subst_names(e, binding):
+    class T(ast.NodeTransformer):
+        def visit_Name(self, n):
+            if isinstance(n.ctx, ast.Load) and n.id in binding:
+                return clone(binding[n.id])
+            return n
+    return T().visit(clone(e))
+
+
+def inline_helper(call, _depth=0):
+    """[(value expression, conds)] of a call of a text-building helper, else None"""
+    if not (isinstance(call, ast.Call) and isinstance(call.func, ast.Name) and call.func.id in _HELPERS) or _depth > 3:
+        return None
+    f, outs = _HELPERS[call.func.id]
+    b = _bind_call(f, call)
+    if b is None:
+        return None
+    res = []
+    for o in outs:
+        if o.kind != 'return':
+            continue
+        res.append((_subst_names(o.value, b), [(_subst_names(t, b), p) if not isinstance(t, str) else (t, p) for t, p in o.conds]))
+    return res
 
 
 def backend_class(repo, backend):
@@ -823,6 +920,14 @@ def _tv(e):
         for parts, cs in _tv(e.orelse):
             out.append((parts, [(e.test, False)] + cs))
         return out
+    if isinstance(e, ast.Call) and isinstance(e.func, ast.Name) and e.func.id in _HELPERS:
+        inl = inline_helper(e)
+        if inl is not None:
+            out = []
+            for val, cs0 in inl:
+                for parts, cs in _tv(val):
+                    out.append((parts, list(cs0) + cs))
+            return out
     if isinstance(e, ast.Call) and isinstance(e.func, ast.Attribute):
         a = e.func.attr
         if a == 'format':
@@ -936,6 +1041,14 @@ class _Ev(Evaluator):
             if k in self.leaves:
                 return self.leaves[k]
         return super().ev_Call(e)
+
+    def ev_BinOp(self, e):
+        if isinstance(e.op, ast.Pow):
+            b, x = self.ev(e.left), self.ev(e.right)
+            if isinstance(b, int) and isinstance(x, int) and 0 <= x <= 64:
+                return b ** x
+            raise AnalysisError(f"power outside the abstract domain: {norm(e)}")
+        return super().ev_BinOp(e)
 
     def ev_JoinedStr(self, e):
         out = ''
@@ -1994,11 +2107,92 @@ class _StmtEv(_Ev):
             res = self.lk.find(self.vis, e.func.attr)
             if res is not None and len(e.args) == len(res[1].args.args) - 1:
                 hf = res[1]
-                rets = [x for x in walk_no_nested(hf) if isinstance(x, ast.Return) and x.value is not None]
-                if len(rets) == 1:
+                if not hf.args.vararg and not hf.args.kwarg and not e.keywords:
+                    # the helper is interpreted on the abstract statement list: straight-line code, if, and loops over
+                    # the concrete lists of the scenario (a generator under sum() and an explicit accumulator loop agree)
                     bound = {a.arg: self.ev(x) for a, x in zip(hf.args.args[1:], e.args)}
-                    return _StmtEv(self.lk, self.vis, bir_aliases(self.lk.repo, res[0].mod), self.field, self.stmts, bound, self.depth + 1).ev(rets[0].value)
+                    sub = _StmtEv(self.lk, self.vis, bir_aliases(self.lk.repo, res[0].mod), self.field, self.stmts, bound, self.depth + 1)
+                    try:
+                        sub.run(hf.body)
+                    except _HelperReturn as r_:
+                        return r_.value
+                    return None
         return super().ev_Call(e)
+
+    MAX_STEPS = 2000
+
+    def run(self, body):
+        """concrete interpretation of a helper's statements; the environment is self.bound"""
+        for st in body:
+            self.steps = getattr(self, 'steps', 0) + 1
+            if self.steps > self.MAX_STEPS:
+                raise AnalysisError("helper of a begin/end condition does not terminate in the abstract domain")
+            if isinstance(st, ast.Pass) or (isinstance(st, ast.Expr) and isinstance(st.value, ast.Constant)):
+                continue
+            if isinstance(st, ast.Return):
+                raise _HelperReturn(None if st.value is None else self.ev(st.value))
+            if isinstance(st, (ast.Assign, ast.AnnAssign)) and getattr(st, 'value', None) is not None:
+                val = self.ev(st.value)
+                for t in (st.targets if isinstance(st, ast.Assign) else [st.target]):
+                    self._bind(t, val)
+                continue
+            if isinstance(st, ast.AugAssign) and isinstance(st.target, ast.Name):
+                cur = ast.BinOp(left=ast.Name(id=st.target.id, ctx=ast.Load()), op=st.op, right=st.value)
+                self.bound[st.target.id] = self.ev(cur)
+                continue
+            if isinstance(st, ast.If):
+                self.run(st.body if self.ev(st.test) else st.orelse)
+                continue
+            if isinstance(st, ast.For):
+                broke = False
+                for item in list(self.ev(st.iter)):
+                    self._bind(st.target, item)
+                    try:
+                        self.run(st.body)
+                    except _HelperBreak:
+                        broke = True
+                        break
+                    except _HelperContinue:
+                        continue
+                if not broke:
+                    self.run(st.orelse)
+                continue
+            if isinstance(st, ast.While):
+                while self.ev(st.test):
+                    try:
+                        self.run(st.body)
+                    except _HelperBreak:
+                        break
+                    except _HelperContinue:
+                        continue
+                continue
+            if isinstance(st, ast.Break):
+                raise _HelperBreak()
+            if isinstance(st, ast.Continue):
+                raise _HelperContinue()
+            raise AnalysisError(f"statement outside the abstract domain in a helper of a begin/end condition: {type(st).__name__}")
+
+    def _bind(self, target, val):
+        if isinstance(target, ast.Name):
+            self.bound[target.id] = val
+        elif isinstance(target, (ast.Tuple, ast.List)) and isinstance(val, (tuple, list)) and len(val) == len(target.elts):
+            for t, v in zip(target.elts, val):
+                self._bind(t, v)
+        else:
+            raise AnalysisError(f"assignment target outside the abstract domain: {norm(target)}")
+
+
+class _HelperReturn(Exception):
+    def __init__(self, value):
+        self.value = value
+
+
+class _HelperBreak(Exception):
+    pass
+
+
+class _HelperContinue(Exception):
+    pass
 
 
 class _ChainEv(_Ev):
@@ -2478,6 +2672,128 @@ V_VALUE = 's.visit(node.value)'
 V_WRAP = 's.visit_expr_wrap(node.value)'
 
 
+COMPOSITE_KINDS = ('IfExp', 'UnaryOp', 'BinOp', 'Compare')
+
+
+def select_reaches_expression(variant, leaves):
+    """a select `[..]` is appended to the operand's text: which composite operand kinds can still reach this form?
+    (evaluated, not matched: a guard like `False and isinstance(..)` excludes nothing)"""
+    hl = hole_list(variant.parts)
+    sk = variant.skeleton()
+    idx = [i for i, h in enumerate(hl) if h.text == V_VALUE]
+    if not idx or not re.search(rf"⟨{idx[0]}⟩\[", sk):
+        return []
+    reach = []
+    for kind in COMPOSITE_KINDS:
+        def assume(e, kind=kind):
+            if isinstance(e, ast.Call) and norm(e.func) == 'isinstance' and len(e.args) == 2 and norm(e.args[0]) == 'node.value':
+                t = e.args[1]
+                names = [x.attr if isinstance(x, ast.Attribute) else norm(x) for x in (t.elts if isinstance(t, ast.Tuple) else [t])]
+                return kind in names
+            return _vector_operand(e)
+        if possible(variant.conds, leaves, assume):
+            reach.append(kind)
+    return reach
+
+
+class _VlogEval:
+    """value (mod 2^width) and width of a tiny Verilog expression skeleton: concatenation / replication, sized decimal
+    literals, 1'b0 / 1'b1, holes, parentheses and the binary operators ^ & | + - (context-determined width = max)"""
+    def __init__(self, sk, hole_vals):
+        self.toks = re.findall(r"⟨\d+⟩'d⟨\d+⟩|⟨\d+⟩|\d+'[bd]\d+|[(){},^&|+\-]", sk)
+        if ''.join(self.toks) != sk.replace(' ', ''):
+            raise AnalysisError(f"expression outside the evaluated Verilog subset: {sk}")
+        self.i, self.hv = 0, hole_vals
+
+    def peek(self):
+        return self.toks[self.i] if self.i < len(self.toks) else None
+
+    def take(self, t=None):
+        x = self.peek()
+        if x is None or (t is not None and x != t):
+            raise AnalysisError(f"unexpected token {x!r}")
+        self.i += 1
+        return x
+
+    def expr(self):
+        v, w = self.atom()
+        while self.peek() in ('^', '&', '|', '+', '-'):
+            op = self.take()
+            v2, w2 = self.atom()
+            w = max(w, w2)
+            v = {'^': v ^ v2, '&': v & v2, '|': v | v2, '+': v + v2, '-': v - v2}[op] % (1 << w)
+        return v, w
+
+    def hole(self, t):
+        return self.hv[int(t[1:-1])]
+
+    def atom(self):
+        t = self.take()
+        if t == '(':
+            r_ = self.expr()
+            self.take(')')
+            return r_
+        if t == '{':
+            # replication {n{...}} or concatenation {a, b}
+            if re.fullmatch(r"⟨\d+⟩", self.peek() or '') and self.toks[self.i + 1:self.i + 2] == ['{']:
+                n_ = self.hole(self.take())[0]
+                self.take('{')
+                v, w = self.expr()
+                self.take('}')
+                self.take('}')
+                val = 0
+                for _ in range(n_):
+                    val = (val << w) | v
+                return val, w * n_
+            parts = [self.expr()]
+            while self.peek() == ',':
+                self.take()
+                parts.append(self.expr())
+            self.take('}')
+            val, wid = 0, 0
+            for v, w in parts:
+                val, wid = (val << w) | v, wid + w
+            return val, wid
+        m = re.fullmatch(r"⟨(\d+)⟩'d⟨(\d+)⟩", t)
+        if m:
+            w = self.hv[int(m.group(1))][0]
+            return self.hv[int(m.group(2))][0] % (1 << w), w
+        m = re.fullmatch(r"(\d+)'[bd](\d+)", t)
+        if m:
+            return int(m.group(2)), int(m.group(1))
+        if re.fullmatch(r"⟨\d+⟩", t):
+            return self.hole(t)
+        raise AnalysisError(f"unexpected token {t!r}")
+
+
+def sign_extension_counterexample(variant, T, C, leaves):
+    """evaluate the emitted form for every operand value: None if it is sign extension C -> T, else (x, got, want)"""
+    hl = hole_list(variant.parts)
+    sk = variant.skeleton()
+    for x in range(1 << C):
+        hv = {}
+        for i, h in enumerate(hl):
+            if h.text == V_VALUE:
+                hv[i] = (x, C)
+            else:
+                ok, val = try_ev(h.expr, leaves)
+                if not ok or not isinstance(val, int):
+                    raise AnalysisError(f"visit_SignExt: hole `{h.text}` outside the abstract domain")
+                hv[i] = (val, 32)
+        ev = _VlogEval(sk, hv)
+        val, w = ev.expr()
+        if ev.peek() is not None:
+            raise AnalysisError(f"expression outside the evaluated Verilog subset: {sk}")
+        got = val % (1 << T)
+        want = x | (((1 << (T - C)) - 1) << C if x >> (C - 1) else 0)
+        if got != want:
+            return x, got, want
+        if w != T:
+            # the self-determined width matters as soon as the result is an operand of a comparison / concatenation
+            return x, f"{val} in a {w}-bit expression", f"{want} in exactly {T} bits"
+    return None
+
+
 def rule_slice(repo, backend):
     r = RuleResult('R-tr-slice', f"[{backend}] part-selects are emitted [upper-1:lower] / [base +: size]; sign extension replicates "
                                  f"the operand's msb, zero extension pads target-current zeros on the MSB side, truncation "
@@ -2570,11 +2886,10 @@ def rule_slice(repo, backend):
         if kind in ('ZeroExt', 'SignExt', 'SizeCast') and T > C:
             if kind == 'SignExt':
                 if sk == SEXT_BIT and hs[1] == V_VALUE:
-                    named = any(p is False and isinstance(t_, ast.Call) and norm(t_.func) == 'isinstance' and norm(t_.args[0]) == 'node.value'
-                                and 'BinOp' in norm(t_.args[1]) for t_, p in v.conds)
-                    if not named:
-                        return ("the sign bit is selected by appending [msb] to the operand's text, but no path condition excludes an "
-                                "operand that is an expression: sext(a + b, 16) is emitted as { {8{ a + b[7] }}, a + b }")
+                    reach = select_reaches_expression(v, lv)
+                    if reach:
+                        return (f"the sign bit is selected by appending [msb] to the operand's text, but an operand of kind {reach} "
+                                f"can reach this form: sext(a + b, 16) is emitted as {{ {{8{{ a + b[7] }}}}, a + b }}")
                     if not _hole_eq(hl[0], lv, T - C):
                         return f"replication count `{hs[0]}` is not target-current ({T}-{C})"
                     if not _hole_eq(hl[2], lv, C - 1):
@@ -2595,7 +2910,18 @@ def rule_slice(repo, backend):
                             norm(t).startswith('isinstance(node.value,') and norm(t).endswith('.Slice)') and p is True for t, p in v.conds):
                         raise AnalysisError(f"visit_SignExt: unrecognised derivation of the replicated bit: {hs[1]}")
                     return None
-                return f"sign extension emitted as `{sk}`, expected {{ {{ n {{ msb }} }}, value }}"
+                # any other form is judged by what it computes: evaluated modulo 2^N for every operand value
+                if V_VALUE in hs and not select_reaches_expression(v, lv) and '[' not in sk.replace("'b", ''):
+                    try:
+                        cex = sign_extension_counterexample(v, T, C, lv)
+                    except AnalysisError as e:
+                        return f"sign extension emitted as `{sk}`, which cannot be evaluated ({e})"
+                    if cex is None:
+                        return None
+                    x, got, want = cex
+                    return (f"sign extension emitted as `{sk}`: for the {C}-bit operand value {x} it yields {got} in {T} bits, "
+                            f"sign extension is {want}")
+                return f"sign extension emitted as `{sk}`, expected {{ {{ n {{ msb }} }}, value }} or an equivalent arithmetic form"
             if sk == ZEXT and hs[1] == V_VALUE:
                 if not _hole_eq(hl[0], lv, T - C):
                     return f"number of padded zeros `{hs[0]}` is not target-current ({T}-{C})"
@@ -2607,6 +2933,10 @@ def rule_slice(repo, backend):
             if sk == "⟨0⟩'(⟨1⟩)" and hs[1] == V_VALUE:
                 return None if _hole_eq(hl[0], lv, T) else f"cast size `{hs[0]}` is not the target width {T}"
             if sk == '⟨0⟩[⟨1⟩:0]' and hs[0] == V_VALUE:
+                reach = select_reaches_expression(v, lv)
+                if reach:
+                    return (f"the kept range is selected by appending [msb:0] to the operand's text, but an operand of kind {reach} can "
+                            f"reach this form: Bits4(a + b) is emitted as a + b[3:0]")
                 return None if _hole_eq(hl[1], lv, T - 1) else f"msb of the kept range `{hs[1]}` is not target-1 ({T}-1)"
             return f"truncation emitted as `{sk}`; the low {T} bits of the operand must be kept"
         if T == C:
@@ -2615,7 +2945,8 @@ def rule_slice(repo, backend):
             return f"`{sk}` emitted for equal widths"
         return f"unexpected form `{sk}` for target {T}, operand {C}"
 
-    for kind, grid in (('ZeroExt', grid_ext), ('SignExt', grid_ext), ('Truncate', grid_tr)):
+    grid_sext = [(T, C) for C in (1, 2, 3, 4) for T in range(C, 7)]
+    for kind, grid in (('ZeroExt', grid_ext), ('SignExt', grid_sext), ('Truncate', grid_tr)):
         fs = forms(kind)
         reported = set()
         covered = set()
@@ -2658,6 +2989,23 @@ def rule_slice(repo, backend):
                 if hv:
                     ok = sk == "⟨0⟩'d⟨1⟩" and _hole_eq(hl[0], lv, T) and '_value' in hl[1].text
                     msg = None if ok else f"a constant operand must be emitted as a literal sized by the cast width ({T}'d<value>), got `{sk}`"
+                    if ok:
+                        # the folded constant is a Python int and may be negative (Bits8(-3)): the digits must be its
+                        # two's complement at the cast width
+                        for u in (-(1 << (T - 1)), -1, 0, 1, (1 << T) - 1):
+                            lu = dict(lv)
+                            lu.update({'node._value': u, 'node.value._value': u})
+                            if not possible(v.conds, lu, _vector_operand):
+                                continue
+                            nev += 1
+                            okv, val = try_ev(hl[1].expr, lu, LIT_FUNCS)
+                            if not okv or isinstance(val, bool) or not isinstance(val, int):
+                                msg = f"the digits `{hl[1].text}` of the literal cannot be evaluated for the constant {u}"
+                                break
+                            if val != u % (1 << T):
+                                msg = (f"the constant {u} is emitted as {T}'d{val}: a negative Python int must be given in two's "
+                                       f"complement ({T}'d{u % (1 << T)}); `{T}'d-1` is not a Verilog literal")
+                                break
                 else:
                     msg = judge('SizeCast', c, f, o, v, T, C, hv)
                 if msg is None:
@@ -2768,11 +3116,75 @@ def decimal_literal_problem(variant):
     for m in _DEC_LIT.finditer(variant.skeleton()):
         h = hl[int(m.group(2))]
         t = h.text
-        if t.startswith('int(') or t.endswith('.uint()') or re.search(r"\._value$", t):
+        if _int_sources(h.expr) or t.endswith('.uint()') or re.search(r"\._value$", t):
             continue
         return (f"the literal's digits are produced by formatting `{t}` without converting it with int() (path conditions "
                 f"{[(norm(c)[:50], p) for c, p in variant.conds][-2:]}): a Bits object prints hexadecimal digits (16 -> 'd10) and a "
                 f"bool prints True / False (s.EN = True -> 1'dTrue)")
+    return None
+
+
+def _bits_value(n, v):
+    return int(v) % (1 << int(n))
+
+
+LIT_FUNCS = {'Bits': _bits_value}
+
+
+def _int_sources(e):
+    """the expressions X converted by int( X ) inside e (a Bits( n, X ) wrapper is looked through)"""
+    out = []
+    for c in ast.walk(e):
+        if isinstance(c, ast.Call) and isinstance(c.func, ast.Name) and c.func.id == 'int' and len(c.args) == 1 and not c.keywords:
+            x = c.args[0]
+            while isinstance(x, ast.Call) and isinstance(x.func, ast.Name) and x.func.id in ('Bits', 'int') and x.args:
+                x = x.args[-1]
+            if norm(x) not in [norm(y) for y in out]:
+                out.append(x)
+    return out
+
+
+def literal_value_problem(variant, assume=None, raw_value_ok=True):
+    """`<W>'d<V>` whose V is a Python int the user supplied: a negative value has no decimal literal (<W>'d-1 is not Verilog),
+    so on every path V must be int() of the value AND be brought into 0 .. 2**W-1 (two's complement: += 1 << W when negative,
+    % (1 << W), & mask, int(Bits(W, v))).  The digits are evaluated for a few (W, value); values taken from a Bits object
+    (isinstance(.., Bits) on the path, .uint(), the type checker's _value) are non-negative by construction.
+    Returns a message or None"""
+    dp = decimal_literal_problem(variant)
+    if dp is not None:
+        return dp
+    hl = hole_list(variant.parts)
+    for m in _DEC_LIT.finditer(variant.skeleton()):
+        hw, hv = hl[int(m.group(1))], hl[int(m.group(2))]
+        t = hv.text
+        srcs = _int_sources(hv.expr)
+        if not srcs:
+            if raw_value_ok:
+                continue                   # .uint() / ._value: a Bits value
+            srcs = [hv.expr]
+        if len(srcs) != 1:
+            return f"the literal's digits `{t}` convert more than one value with int(): not a form this rule can evaluate"
+        src = norm(srcs[0])
+        if any(p is True and re.fullmatch(r"isinstance\(%s, (\w+\.)?Bits\w*\)" % re.escape(src), norm(c)) for c, p in variant.conds
+               if not isinstance(c, str)):
+            continue                       # a Bits object: 0 <= int(obj) < 2**nbits
+        n_live = 0
+        for W in (1, 3, 8):
+            for u in (-(1 << (W - 1)), -1, 0, 1, (1 << W) - 1):
+                lv = {hw.text: W, src: u}
+                if not possible(variant.conds, lv, assume):
+                    continue
+                n_live += 1
+                ok, val = try_ev(hv.expr, lv, LIT_FUNCS)
+                if not ok or isinstance(val, bool) or not isinstance(val, int):
+                    return (f"the literal's digits `{t}` cannot be evaluated for width {W}, value {u}: not a recognised way of "
+                            f"producing a non-negative decimal")
+                if not (0 <= val < (1 << W)) or val != u % (1 << W):
+                    return (f"for a {W}-bit constant of value {u} the literal is {W}'d{val}: a negative Python int must be "
+                            f"emitted in two's complement ({W}'d{u % (1 << W)}); `{W}'d-1` is not a Verilog literal and the "
+                            f"simulator computes with {u % (1 << W)}")
+        if n_live == 0:
+            return f"the literal's digits `{t}`: no value reaches this form in the abstract domain"
     return None
 
 
@@ -2797,7 +3209,8 @@ def rule_width_cast(repo, backend):
                 w = sized_width(v)
                 cons = f"visit_{kind} -> {v.skeleton()} {[h.text for h in hole_list(v.parts)]}"
                 okw = w == NODE_W or (w == 'node.obj.nbits' and cond_true(v, r'isinstance\(node\.obj, Bits\)'))
-                dp = decimal_literal_problem(v)
+                dp = literal_value_problem(v)
+                nev += 15
                 if dp is not None:
                     guard = [f"{norm(t_)[:60]}={p_}" for t_, p_ in v.conds if 'isinstance' in norm(t_)][-1:]
                     r.bad(c.mod, fq(c, f), cons + (f" under {guard[0]}" if guard else ''), dp, o.node.lineno)
@@ -2880,7 +3293,7 @@ def rule_width_cast(repo, backend):
                     cons = f"visit_Attribute [{label}] -> {v.skeleton()} {[h.text[:60] for h in hl]}"
                     if w is None and len(hl) == 1 and isinstance(hl[0].expr, ast.Call) and norm(hl[0].expr.func) == 's._literal_number':
                         w = 'literal'
-                    dp = decimal_literal_problem(v)
+                    dp = literal_value_problem(v, assume)
                     if dp is not None:
                         r.bad(c.mod, fq(c, f), cons, dp, o.node.lineno)
                     elif w is None:
@@ -2892,6 +3305,82 @@ def rule_width_cast(repo, backend):
                         r.ok(c.mod, fq(c, f), cons)
         if n_live == 0:
             r.bad(vis.mod, vis.name + '.visit_Attribute', label, "no emission is reachable for this kind of constant attribute", 0)
+    # the visitor's own literal helper (struct fields of constants)
+    res = lk.find(vis, '_literal_number')
+    if res is not None:
+        c, f = res
+        ps = [a.arg for a in f.args.args][1:]
+        ex, outs = sym_run(f)
+        for o in outs:
+            if o.kind == 'return' and o.value is not None:
+                for v in to_variants(o.value, o.conds):
+                    hl = hole_list(v.parts)
+                    cons = f"visitor _literal_number -> {v.skeleton()} {[h.text for h in hl]}"
+                    if v.conds:
+                        cons += f" under {[(norm(t_)[:40], p_) for t_, p_ in v.conds][-1:]}"
+                    dp = literal_value_problem(v, raw_value_ok=False)
+                    nev += 15
+                    if len(ps) < 2 or not (sized_width(v) == ps[0] and len(hl) > 1 and re.search(r"\b%s\b" % re.escape(ps[1]), hl[1].text)):
+                        r.bad(c.mod, fq(c, f), cons, "a literal must be emitted as <nbits>'d<value>", o.node.lineno)
+                    elif dp is not None:
+                        r.bad(c.mod, fq(c, f), cons, dp, o.node.lineno)
+                    else:
+                        r.ok(c.mod, fq(c, f), cons)
+    # use of a declared constant: the declaration holds the two's complement of the value at the constant's OWN width Wk; the
+    # use widens it to the node's width N, so a negative constant must be sign-extended and a non-negative one must not
+    def own_width(val):
+        if -1 <= val <= 1:
+            return 1
+        return (abs(val) - 1).bit_length() + 1 if val < 0 else val.bit_length()
+    uses = []
+    for c, f, o in emissions(lk, vis, 'visit_FreeVar'):
+        if o.kind == 'return' and o.value is not None:
+            uses.extend((c, f, o, v) for v in to_variants(o.value, o.conds) if '__const__' in v.skeleton())
+    judged = {}
+    for val in (-8, -5, -2, -1, 0, 1, 2, 3, 5, 7):
+        Wk = own_width(val)
+        decl = val % (1 << Wk)
+        for N in (Wk, Wk + 1, Wk + 4):
+            lv = {'node.obj': val, 'isinstance(node.obj, int)': True, NODE_W: N}
+            live = [x for x in uses if possible(x[3].conds, lv, lambda e: False if re.fullmatch(r"isinstance\(node\.obj, (\w+\.)?Bits\w*\)", norm(e)) else None)]
+            if uses and not live:
+                c, f = uses[0][0], uses[0][1]
+                r.bad(c.mod, fq(c, f), f"visit_FreeVar use of an int constant", f"no emitted form covers the constant {val}", f.lineno)
+            for c, f, o, v in live:
+                nev += 1
+                sk = v.skeleton()
+                key = (sk, tuple(h.text for h in hole_list(v.parts)), tuple((norm(t_), str(p_)) for t_, p_ in v.conds))
+                if judged.get(key):
+                    continue
+                m = re.fullmatch(r"⟨(\d+)⟩'\((\$signed\()?__const__⟨\d+⟩\)?\)", sk)
+                if not m or sk.count('(') != sk.count(')') or not _hole_eq(hole_list(v.parts)[int(m.group(1))], lv, N):
+                    judged[key] = (c, f, o, v, f"the use of a declared constant must be N'( __const__name ) or N'( $signed( __const__name ) ) "
+                                                f"with N the node's width, got `{sk}`")
+                    continue
+                if m.group(2):
+                    got = (decl - (1 << Wk) if decl >> (Wk - 1) else decl) % (1 << N)
+                else:
+                    got = decl % (1 << N)
+                if got != val % (1 << N):
+                    judged[key] = (c, f, o, v, f"the constant {val} is declared as {Wk}'d{decl} (two's complement at its own width); "
+                                   f"used at {N} bits this form {'sign' if m.group(2) else 'zero'}-extends it to {got}, the simulator "
+                                   f"computes with {val % (1 << N)}: a negative constant needs $signed inside the size cast, a "
+                                   f"non-negative one must not have it")
+                else:
+                    judged.setdefault(key, None)
+    seen_keys = set()
+    for c, f, o, v in uses:
+        key = (v.skeleton(), tuple(h.text for h in hole_list(v.parts)), tuple((norm(t_), str(p_)) for t_, p_ in v.conds))
+        if key in seen_keys or key not in judged:
+            continue
+        seen_keys.add(key)
+        cons = f"visit_FreeVar use -> {v.skeleton()} under {[(norm(t_)[:50], p_) for t_, p_ in v.conds][-1:]}"
+        if judged[key] is None:
+            r.ok(c.mod, fq(c, f), cons)
+        else:
+            r.bad(c.mod, fq(c, f), cons, judged[key][4], o.node.lineno)
+    if backend == 'sv' and not uses:
+        raise AnalysisError("visit_FreeVar: no use of a declared constant found")
     # constant array elements (yosys inlines them)
     for c, f, o in emissions(lk, vis, 'visit_Index'):
         if o.kind != 'return':
@@ -2915,10 +3404,17 @@ def rule_width_cast(repo, backend):
         if o.kind == 'return' and o.value is not None:
             for v in to_variants(o.value):
                 cons = f"_literal_number -> {v.skeleton()} {[h.text for h in hole_list(v.parts)]}"
-                if sized_width(v) == ps[0] and ps[1] in hole_list(v.parts)[1].text:
-                    r.ok(c.mod, fq(c, f), cons)
-                else:
+                if v.conds:
+                    cons += f" under {[(norm(t_)[:40], p_) for t_, p_ in v.conds][-1:]}"
+                hl = hole_list(v.parts)
+                dp = literal_value_problem(v, raw_value_ok=False)
+                nev += 15
+                if not (sized_width(v) == ps[0] and len(hl) > 1 and re.search(r"\b%s\b" % re.escape(ps[1]), hl[1].text)):
                     r.bad(c.mod, fq(c, f), cons, "literals of connections must be emitted as <nbits>'d<value>", o.node.lineno)
+                elif dp is not None:
+                    r.bad(c.mod, fq(c, f), cons, dp, o.node.lineno)
+                else:
+                    r.ok(c.mod, fq(c, f), cons)
     # loop variable width in the type checker: bits needed for the largest value of the range
     tcv = typecheck_visitor(repo, backend)
     res = lk.find(tcv, 'visit_For')
